@@ -40,3 +40,11 @@ def run(rep, tier):
         rep.call(dispatch_rules.headroom, rep, prog, "C18.headroom")
         rep.call(simd_rules.f64_accumulate, rep, prog, "C18.f64-accumulate", {"x86": 100, "x86-rayon": 100}.get(cfg, 8))
         rep.call(roundbudget.budget, rep, prog, "C18.round-budget", {"x86": 110, "arm": 60, "wasm": 55}.get(cfg, 40))
+        # the property is stated for "alpha handling off": the flag the caller cleared must be the
+        # one that reaches the premultiply / divide decision on every route (a swapped or constant
+        # flag runs the alpha pipeline, whose division leaves the source range)
+        from . import c07
+        from ..engines import siblings
+        rep.call(c07.pipeline, rep, prog, "C18.alpha-flag")
+        rep.call(c07.supersampling_alpha, rep, prog, "C18.alpha-flag-supersampling")
+        rep.call(siblings.forwarded_args, rep, prog, "C18.forwarded-options")
